@@ -257,7 +257,8 @@ End Wk.
 (* ================================ the one-way flags (core model) ================================
    flags_le s s' (= Core/OneWayFlags.FL): from s to s'
      pwait2     is unchanged, or went true -> false and the kernel answers ENOSYS/EPERM to epoll_pwait2;
-     efd_epoll, efd_raw  are unchanged, or went to 0, or 2 -> 1, and eventfd / eventfd2 is missing;
+     efd_epoll, efd_raw  are unchanged, or went to 0, or 2 -> 1, and eventfd / eventfd2 is missing
+                (from the first call or from the efd_ok-th creation on);
      method     is unchanged, or epoll-timerfd -> epoll and timerfd_create is missing,
                 or ppoll -> poll and ppoll is missing;
      use_raw    if set stays set;
@@ -307,18 +308,35 @@ Proof.
 Qed.
 Print Assumptions C14_one_way_flags.
 
-(* idempotence: the value a write stores is a function of the kernel's (constant) answer.
-   eventfd_in_use: both writers store grab_flag (oracle) (old value), which moves down only and is
-   idempotent; nothing else moves in those functions *)
+(* idempotence.  For eventfd2 / eventfd the kernel's answer is NOT constant: the scenario's fault oracle lets
+   them fail from the first call or from the k-th creation on (faults.efd_ok), so "every write stores the
+   kernel's constant answer" would be false.  What is true, for every state, scenario and oracle:
+     - both writers of eventfd_in_use store grab_flag (oracle) (efd_cut kernel) (old value): a function of the
+       oracle, of the old value and of ONE time-varying bit, efd_cut (are the eventfd faults in effect yet);
+       nothing else moves in those functions;
+     - grab_flag moves the flag down only (efd_le), whatever the bit;
+     - the bit is itself one-way (false -> true only: the kernel's creation counter never decreases, and
+       eventfd_grab only increases it);
+     - before the cut a grab leaves the flag alone; at a given value of the bit the write is idempotent;
+       writes made at different values of the bit compose -- in either order -- to the write at the later value.
+   So two unsynchronised writers can store different values only if the cut fell between their system calls;
+   both values are legal positions of the one-way flag and the next grab brings it to the same final value. *)
 Theorem C14_flag_writes_idempotent_eventfd :
   (forall s j, fv (res_state (fst (raw_register s j))) =
-     (pwait2 s, efd_epoll s, grab_flag (flt (kern s)) (efd_raw s), method s, use_raw s, flt (kern s))) /\
+     (pwait2 s, efd_epoll s, grab_flag (flt (kern s)) (efd_cut (kern s)) (efd_raw s), method s, use_raw s, flt (kern s))) /\
   (forall s, fv (res_state (fst (event_rx_on s))) =
-     (pwait2 s, (if active_ref s =? 0 then grab_flag (flt (kern s)) (efd_epoll s) else efd_epoll s),
+     (pwait2 s, (if active_ref s =? 0 then grab_flag (flt (kern s)) (efd_cut (kern s)) (efd_epoll s) else efd_epoll s),
       efd_raw s, method s, use_raw s, flt (kern s))) /\
-  (forall f u, efd_le f (grab_flag f u) u) /\
-  (forall f u, grab_flag f (grab_flag f u) = grab_flag f u).
-Proof. exact (conj raw_register_fv (conj rx_on_fv (conj grab_flag_le grab_flag_idem))). Qed.
+  (forall f c u, efd_le f (grab_flag f c u) u) /\
+  (forall k k', nefd_le k k' -> efd_cut k = true -> efd_cut k' = true) /\
+  (forall k u, nefd_le k (fst (fst (eventfd_grab k u)))) /\
+  (forall f u, u = 0 \/ u = 1 \/ u = 2 -> grab_flag f false u = u) /\
+  (forall f c u, grab_flag f c (grab_flag f c u) = grab_flag f c u) /\
+  (forall f c1 c2 u, u = 0 \/ u = 1 \/ u = 2 -> grab_flag f c2 (grab_flag f c1 u) = grab_flag f (c1 || c2) u).
+Proof.
+  exact (conj raw_register_fv (conj rx_on_fv (conj grab_flag_le (conj efd_cut_mono (conj nefd_grab
+          (conj grab_flag_nocut (conj grab_flag_idem grab_flag_compose))))))).
+Qed.
 Print Assumptions C14_flag_writes_idempotent_eventfd.
 
 (* epoll_pwait2_support, the ppoll -> poll switch and the timerfd -> plain epoll switch: after the
@@ -342,3 +360,13 @@ Example C14_flags_nonvacuous :
   fv (core0 (ex_scenario 2)) = (true, 2, 2, 2, false, ex_faults) /\
   fv (res_state (run_result (ex_scenario 2))) = (true, 2, 1, 3, true, ex_faults).
 Proof. exact flags_nonvacuous. Qed.
+
+(* the time-varying eventfd answer is really exercised: eventfd2 / eventfd work for one creation, then ENOSYS
+   (efd_ok := 1); eventfd_in_use of the raw events stays 2 after the first registration and drops to 0 at the second *)
+Example C14_flags_cut_nonvacuous :
+  fv (core0 (ex_cut_scenario 4)) = (true, 2, 2, 3, false, ex_cut_faults) /\
+  fv (res_state (run_acts (core0 (ex_cut_scenario 1)) (sc_setup (ex_cut_scenario 1)))) = (true, 2, 2, 3, false, ex_cut_faults) /\
+  fv (res_state (run_acts (core0 (ex_cut_scenario 2)) (sc_setup (ex_cut_scenario 2)))) = (true, 2, 0, 3, false, ex_cut_faults) /\
+  fv (res_state (run_result (ex_cut_scenario 4))) = (true, 2, 0, 3, false, ex_cut_faults) /\
+  grab_flag ex_cut_faults false 2 = 2 /\ grab_flag ex_cut_faults true 2 = 0.
+Proof. exact flags_cut_nonvacuous. Qed.
